@@ -57,15 +57,20 @@ def load_h5_as_striped(filename, stride=1):
             'Parallel loading of RaggedArrays that have been stored as '
             'arrays and lengths cannot be loaded in parallel.')
 
-    local_data = ra.load(filename,
-                         keys=all_keys[mpi.rank()::mpi.size()],
-                         stride=stride)
+    local_keys = all_keys[mpi.rank()::mpi.size()]
+    if len(local_keys) > 0:
+        local_data = ra.load(filename, keys=local_keys, stride=stride)
+    else:
+        # more ranks than rows: this rank owns an empty block
+        with tables.open_file(filename) as handle:
+            node = handle.get_node(where='/', name=all_keys[0])
+            local_data = np.zeros((0,) + node.shape[1:], dtype=node.dtype)
 
     if hasattr(local_data, '_data'):
         local_data = local_data._data
     else:
-        # we shoud only get here if only one key is given to load
-        assert len(global_lengths[mpi.rank()::mpi.size()]) == 1
+        # we shoud only get here if at most one key is given to load
+        assert len(global_lengths[mpi.rank()::mpi.size()]) <= 1
         local_data = local_data
 
     return global_lengths, local_data
@@ -184,6 +189,11 @@ def load_trajectory_as_striped(filenames, *args, **kwargs):
     if 'args' in kwargs and len(kwargs['args']) > 1:
         assert len(kwargs['args']) == len(filenames)
         kwargs['args'] = kwargs['args'].copy()[mpi.rank()::mpi.size()]
+
+    # lengths are given per file, so they are striped like the files
+    if kwargs.get('lengths') is not None:
+        assert len(kwargs['lengths']) == len(filenames)
+        kwargs['lengths'] = list(kwargs['lengths'])[mpi.rank()::mpi.size()]
 
     local_lengths, my_xyz = load_as_concatenated(
         filenames=filenames[mpi.rank()::mpi.size()], *args, **kwargs)
